@@ -648,6 +648,21 @@ func streamCli(r *rng, n int, pfx string) {
 			args = append(args, "-p", name)
 			fields = append(fields, hx(text))
 			texts = append(texts, text)
+			// the same file named twice (also under another spelling of its path) is applied twice
+			if r.chance(1, 5) {
+				alt := name
+				if r.chance(1, 2) {
+					alt = filepath.Join(filepath.Dir(name), ".", "..", filepath.Base(filepath.Dir(name)), filepath.Base(name))
+				}
+				args = append(args, "-p", alt)
+				fields = append(fields, hx(text))
+				texts = append(texts, text)
+				if b, ok := okBytes(callApply(aopts{neg: true, esc: true}, "", spell{1, r}.text(cur), text)); ok {
+					if v, err := parseJV(b); err == nil && v.isCon() {
+						cur = v
+					}
+				}
+			}
 		}
 		cmd := exec.Command(bin, args...)
 		cmd.Stdin = bytes.NewReader(stdin)
